@@ -90,6 +90,7 @@ class C01(InputProp):
         fams.append(Seqs(W.SIGMA, 2, minlen=1, name="flat-nodb"))
         fams.append(Seqs(core, 3, minlen=3, name="flat-core"))
         fams.append(Product([c[0] for c in W.CTX], W.SIGMA, name="ctx"))
+        fams.append(Product([h[0] for h in W.ATTR_HOSTS], W.ATTR_NAMES, W.ATTR_VALUES, name="tagattr"))
         if tier == "quick":
             fams.append(Product(W.TU_BODIES, core[:24], core[:24], ["call", "arg"], name="templ"))
             fams.append(Product([n[0] for n in W.NESTABLE], DEPTHS_QUICK, ["closed", "open"] + [n[0] for n in W.NESTABLE], name="nest"))
@@ -130,6 +131,8 @@ class C01(InputProp):
         lang, db = "en", self.db("en")
         if fam in ("flat", "flat-core", "flat3", "flat-core4"):
             text = "".join(c)
+        elif fam == "tagattr":
+            text = dict(W.ATTR_HOSTS)[c[0]] % ("%s=%s" % (c[1], c[2]))
         elif fam == "flat-nodb":
             text, db = "".join(c), None
         elif fam == "ctx":
